@@ -628,6 +628,20 @@ func runC05(c *ev.Ctx) {
 	if c.Thorough() {
 		tl := []int{1 << 17, 1<<17 + 1, 1000000, 1 << 20, 1<<20 + 1, 1 << 21, 1 << 22}
 		works = append(works, famWorks(gen.Mix(seed, 3), []string{"uniform", "slight", "periodic", "zeros", "markov", "lfsr"}, tl, 1, dft)...)
+		// the number of counted bins n/2-1 is a "smooth" size (s*2^k, s in {1,3,5}): natural segment sizes
+		// of chunked / parallel counting loops; n = 2m+2 and 2m+3 give exactly m bins
+		for _, sm := range []int{1, 3, 5} {
+			for k := 17; k <= 20; k++ {
+				m := sm << uint(k)
+				if m > 2400000 || m < 300000 {
+					continue
+				}
+				for _, n := range []int{2*m + 2, 2*m + 3, 2*m + 1} {
+					works = append(works, seqWork{Seq: gen.Seq{Fam: "uniform", N: n, Seed: gen.Mix(seed, 31, uint64(n))}, Specs: dft(n)})
+					c.Count("smooth_bin_count_lengths", 1)
+				}
+			}
+		}
 	}
 	// validate the reference FFT itself by direct summation before trusting it
 	validateOracleFFT(c, seed)
